@@ -69,7 +69,7 @@ class C10(Config):
               "Local Open Scope N_scope.")
     bin = "c10"
     release_too = False
-    n_tags = 110
+    n_tags = 120
     shard_size = 250
     classes = {1: "C10-encode-panics-on-short-or-long-container"}
     rule = ("address values of every kind and network (constructors, encode, parse back, convert_if_network for every expected network), unified "
@@ -93,6 +93,35 @@ class C10(Config):
         "Base58Check round trip (kind_roundtrip, bridge for CEnc): visible guard that the produced string is not by accident also a valid Bech32/Bech32m string (the parser tries those first); evaluated on every case as part of wf_case",
     ]
     partial_clauses = []
+
+    def extra(self, ctx):
+        """zcash_keys side (decode_payment_address / encode_payment_address through the shared helper
+        bech32_decode): binary c10k of the package harness/keysnt (zcash_keys with default features).
+        Its cases go through the same Coq evaluation and verdict as the main ones."""
+        from .. import core
+        from ..runner import parse_harness, classify
+        if any(p.get("kind") == "model" for p in ctx["problems"]):
+            return
+        core.log("[C10] harness (zcash_keys::encoding, package vkeysnt)")
+        ok, path, out = core.harness_build("c10k", package="vkeysnt")
+        if not ok:
+            ctx["problems"].append({"kind": "harness", "what": "harness-build (c10k, package vkeysnt)", "log": out[-6000:]})
+            return
+        rc, out = core.harness_run(path, self.harness_args(ctx["tier"], ctx["seed"]), timeout=self.harness_timeout)
+        cases, stats, other = parse_harness(out)
+        if rc != 0 or not cases:
+            ctx["problems"].append({"kind": "harness", "what": "harness-run (c10k)", "log": "\n".join(other)[-6000:]})
+            return
+        res = core.eval_cases(self.pid + "-keys", self.header, self.fns, cases, shard_size=self.shard_size)
+        cl = [(c, False) for c in cases]
+        classify(self, res, cl, ctx["problems"], ctx["violations"], ctx["known_hits"])
+        ctx["cases"] += cl
+        if ctx.get("res") is not None:
+            for k, v in res.get("tags", {}).items():
+                ctx["res"]["tags"][k] = ctx["res"]["tags"].get(k, 0) + v
+        ctx["extra_evidence"] = {"zcash_keys_encoding": {
+            "binary": "c10k (package vkeysnt)", "cases": len(cases), "stats": stats[:2],
+            "tag_histogram": {str(k): v for k, v in sorted(res.get("tags", {}).items())}}}
 
     @staticmethod
     def gen():
